@@ -1625,8 +1625,16 @@ def int_sig(c, detail):
 
 # ----------------------------------------------------------------------------------------------- the check
 def proof_stage(ck):
+    # regenerate lean/MpVerif/Gen/SolCheck.lean from the CURRENT tree (clang AST -> Lean); written only if changed
+    gen = os.path.join(LEAN, 'MpVerif', 'Gen', 'SolCheck.lean')
+    rc, out, err = sh([sys.executable, os.path.join(VERIF, 'translators', 'gen_solcheck.py'), REPO, gen, os.path.join(BUILD, 'tr_c07')],
+                      timeout=900)
+    ck.log((out.strip() or err.strip())[-300:])
+    if rc != 0:
+        ck.cov.update({'obligations': EXPECT_THEOREMS, 'discharged': 0, 'checker_cmd': 'translators/gen_solcheck.py failed'})
+        return False, ['translator: ' + (out + err).strip()[-500:]]
     ok, failing = ck.proof_stage('MpVerif.C07.Props', 'MpVerif/C07/Props.lean', 'C07_',
-                                 ['MpVerif/C07/*.lean'], expect_min=EXPECT_THEOREMS)
+                                 ['MpVerif/C07/*.lean', 'MpVerif/Gen/SolCheck.lean'], expect_min=EXPECT_THEOREMS)
     ck.log('proof stage: ok=%s failing=%s' % (ok, failing[:10]))
     if ck.tier == 'thorough' and ok:
         bad = ck.leanchecker(['MpVerif.C07.Props'])
@@ -1636,7 +1644,7 @@ def proof_stage(ck):
     return ok, failing
 
 
-EXPECT_THEOREMS = 33
+EXPECT_THEOREMS = 43
 
 
 def run(ck):
@@ -2149,7 +2157,7 @@ def finish(ck, proof_ok, failing, stats, hist, corr_bad, oracle_bad, distinct):
         'runs producing non-finite values (division by zero, empty min/max) or whose defining expressions are not ordered by variable index are outside the modelled fragment (counted)',
         'sol:chk:round / sol:chk:prec are sampled only where the double computation pow(10,n)/round is exact (filtered in python)',
     ]
-    ck.cov['trusted_base'] += ['harness/c07/c07modelmgr.cc: dump of the flat model at check time (reads the converter through its public API only)',
+    ck.cov['trusted_base'] += ['translators/gen_solcheck.py + clang-14 typed AST: decision functions of the checker regenerated as Lean definitions (doubles = ordered field with +-inf, NaN-free; non-decision operands are parameters)', 'harness/c07/c07modelmgr.cc: dump of the flat model at check time (reads the converter through its public API only)',
                                'checks/c07.py: translation of the dump into driver ops, rendering of the report text, NL-level oracle (gen/nlgen.py evaluator)']
 
 
